@@ -56,6 +56,8 @@ LOCI = {
                  ("T9", "G1", "-", [(1000, 1200), (2000, 2150), (3000, 3900)])],
     "retained_intron": [("T1", "G1", "+", [(1000, 1200), (2000, 2150), (3000, 3300)]),
                         ("T10", "G1", "+", [(1000, 1200), (2000, 3300)])],
+    "near_ends": [("T1", "G1", "-", [(1000, 1200), (2000, 2150), (3000, 3300)]),
+                  ("T11", "G1", "-", [(1003, 1200), (2000, 2150), (3000, 3297)])],
     "micro_exon": [("T1", "G1", "+", [(1000, 1200), (2000, 2020), (3000, 3300)]),
                    ("T2", "G1", "+", [(1000, 1200), (3000, 3300)])],
 }
